@@ -241,8 +241,16 @@ def match_known(known, vclass, op_kinds, extra=None):
 # ---------------------------------------------------------------------------------------------
 # evidence
 
+def _out_base():
+    # runs against another tree (VERIF_REPO: scratch worktrees of seeded breakages, bisecting) must not overwrite the
+    # evidence and replay files of /repo itself
+    if os.path.realpath(env.REPO) != '/repo':
+        return env.scratch_dir('alt-out')
+    return env.VERIF
+
+
 def write_evidence(prop, payload):
-    path = os.path.join(env.VERIF, 'evidence', f'{prop}.json')
+    path = os.path.join(_out_base(), 'evidence', f'{prop}.json')
     os.makedirs(os.path.dirname(path), exist_ok=True)
     try:
         import jsonschema
@@ -262,7 +270,7 @@ def write_evidence(prop, payload):
 
 
 def write_replay(prop, name, trace):
-    d = os.path.join(env.VERIF, 'replays')
+    d = os.path.join(_out_base(), 'replays')
     os.makedirs(d, exist_ok=True)
     path = os.path.join(d, f'{prop}-{name}.json')
     with open(path, 'w') as f:
